@@ -144,7 +144,7 @@ def tasks(tier):
     for M, e in itertools.product([2] if tier == "quick" else [2, 3],
                                   ["Retry.execute", "Policy.execute", "RetryPolicy.execute"]):
         cfg = dict(M=M, alphabet=["ok", "x:T"] if tier == "quick" else ["ok", "x:T", "r:T"],
-                   attempt_timeout=1, durs=[0, 10], real_executor=True, late_menu=late,
+                   attempt_timeout=2, durs=[0, 10], real_executor=True, late_menu=late,
                    max_unknown=None, handler="call", handler_menu=["SLEEP"], sleeper="call")
         out.append({"family": "outcome-late-attempt", "cfg": cfg, "entry": e, "bound": 1,
                     "selfcheck": 0})
